@@ -45,6 +45,10 @@ func utf8Bytes(r *Term) (n *Term, b [4]*Term) {
 }
 
 func init() {
+	// strconv.lower (reference copy, zz_stubs.go): c | ('x' - 'X')
+	externs["strconv.lower"] = func(ex *Exec, st *State, i *ssa.Call, args []Value) Value {
+		return BVOp("bvor", args[0].(*Term), BVI(8, 0x20))
+	}
 	externs["utf16.IsSurrogate"] = func(ex *Exec, st *State, i *ssa.Call, args []Value) Value {
 		r := args[0].(*Term)
 		return And(Sle(i32(0xD800), r), Slt(r, i32(0xE000)))
